@@ -114,6 +114,12 @@ func runC06(c *engine.Ctx) {
 		*kp.signer.failAt = failAt
 	}
 
+	// steps stamped out of one template may all hold the SAME (stale) signature record: each step still gets its own
+	if st.cmds >= 2 && p.Draw(6, "cfg:shared-signature-record") == 5 {
+		shared := &pipeline.Signature{Algorithm: "EdDSA", SignedFields: []string{"command"}, Value: "stale"}
+		walkCommandSteps(pl.Steps, func(cs *pipeline.CommandStep, d int) { cs.Signature = shared }, 0)
+		c.Probe("steps_sharing_one_signature_record")
+	}
 	signEnv := pl.Env.ToMap()
 	envBefore := deepDump.Sdump(signEnv)
 	treeBefore := blankedDump(pl.Steps)
